@@ -2,7 +2,7 @@ HOOKS = {
     "guard": "verif",
     "enable": "go build -tags verif (the harness module /verif/harness replaces github.com/benoitkugler/webrender by /repo)",
     "baseline_off_cmd": "bin/baseline_off",
-    "source_commits": ["38cf8a4", "de761b4", "a8a0f08"],
+    "source_commits": ["38cf8a4", "de761b4", "a8a0f08", "a5d27d7"],
     "add_only": True,
 }
 ENGINES = [
@@ -16,6 +16,14 @@ NOTES = ("Every check = TLA+ specification under spec/ checked by TLC + conforma
          "known_findings.json lists genuine defects (known / fixed).")
 NOT_APPLICABLE = {}
 CHECKS = {
+    "C01": {
+        "level": "model_checking",
+        "technique": "TLA+ specs PageLoop.tla (the page loop layoutDocument / makeAllPages / remakePage with its progress argument: invariants IndexSafe, NoTwoBlanks, PagesBound, Progress, LoopBound, liveness Terminates; the variant without progress guarantee must fail) and Docs.tla (document generator: trees of feature bundles x page geometries x prologues x extras; Invalid/Twin) model-checked by TLC; every generated document rendered by the real code under pango/go-text and hints on/off in watchdog-supervised workers with the page-loop hooks (build tag verif) recording one event per step and enforcing a page budget; every render validated as a trace by TLC (RenderTrace.tla: events bound to the actions of PageLoop.tla, contract Call -> Parsed -> page loop -> Laid -> Drawn -> Return, no action for Panic / Fatal / Timeout / PageBudget); documents with an Invalid bundle must produce the backend calls of their Twin",
+        "text": "TLC proves on the bounded model that the page loop ends (every non-blank page advances the resume point or takes a footnote, blank pages alternate, rounds are bounded) and never indexes a page that does not exist; "
+                "TLC enumerates the documents; every real render must be a behaviour of the render contract whose page steps are steps of the model, i.e. it must return.",
+        "note": "Exhaustive over 118 feature bundles x 1 node x 6 geometries x 4 prologues, 2-node documents, seeded simulations of 3..8 nodes; thorough tier adds 3-node documents over the core bundles and byte-level mutants. "
+                "Known findings (running elements in flex/grid, footnote corner cases, wavy decoration on astronomically wide lines) are listed in known_findings.json.",
+    },
     "C07": {
         "level": "exploration",
         "technique": "TLA+ spec Inputs.tla (fragment alphabets per family of entry points, exhaustive enumeration of bounded sequences by TLC; contract automaton Call -> Return with liveness AlwaysReturns) ; every input given to the real parsing entry points inside recover in watchdog-supervised worker processes; outcome records validated by TLC (ContractTrace.tla)",
